@@ -149,34 +149,57 @@ func (g *c18Graph) yaml(c *Chooser) string {
 	var b strings.Builder
 	b.WriteString("on: push\njobs:\n")
 	line := 3
+	// other legal ways of writing the same graph: quoted keys and entries, CRLF line ends
+	// (anchors and aliases are not among them: actionlint, like GitHub at the time, rejects an
+	// alias node with a syntax error, so a needs list written as an alias is not a needs list)
+	quoting := c.Weighted("world.quoting", 1, 6)
+	q := func(s string) string {
+		if quoting {
+			switch c.Int("world.quote", 3) {
+			case 1:
+				return "'" + s + "'"
+			case 2:
+				return `"` + s + `"`
+			}
+		}
+		return s
+	}
 	for i := range g.Jobs {
 		j := &g.Jobs[i]
 		j.Line = line
 		if j.Stub != "" {
-			fmt.Fprintf(&b, "  %s: %s\n", j.ID, strings.TrimSpace(j.Stub))
+			fmt.Fprintf(&b, "  %s: %s\n", q(j.ID), strings.TrimSpace(j.Stub))
 			line++
 			continue
 		}
-		fmt.Fprintf(&b, "  %s:\n", j.ID)
+		fmt.Fprintf(&b, "  %s:\n", q(j.ID))
 		line++
 		if len(j.Needs) == 1 && c.Bool("world.scalarneeds") {
-			fmt.Fprintf(&b, "    needs: %s\n", j.Needs[0])
+			fmt.Fprintf(&b, "    needs: %s\n", q(j.Needs[0]))
 			line++
 		} else if len(j.Needs) > 0 {
-			if c.Bool("world.flowneeds") {
-				fmt.Fprintf(&b, "    needs: [%s]\n", strings.Join(j.Needs, ", "))
+			switch {
+			case c.Bool("world.flowneeds"):
+				qs := make([]string, len(j.Needs))
+				for k, n := range j.Needs {
+					qs[k] = q(n)
+				}
+				fmt.Fprintf(&b, "    needs: [%s]\n", strings.Join(qs, ", "))
 				line++
-			} else {
+			default:
 				b.WriteString("    needs:\n")
 				line++
 				for _, n := range j.Needs {
-					fmt.Fprintf(&b, "      - %s\n", n)
+					fmt.Fprintf(&b, "      - %s\n", q(n))
 					line++
 				}
 			}
 		}
 		b.WriteString("    runs-on: ubuntu-latest\n    steps:\n      - run: echo\n")
 		line += 3
+	}
+	if c.Weighted("world.crlf", 1, 10) {
+		return strings.ReplaceAll(b.String(), "\n", "\r\n")
 	}
 	return b.String()
 }
